@@ -661,11 +661,15 @@ pub fn audit_pointers(bytes: &[u8], m: &WMsg) -> Result<usize, String> {
                 if target >= start {
                     return Err(format!("audit: pointer at {} targets {target}, not before the name at {start}", *pos));
                 }
+                // was the identical name written at target + k*16384?  Then the
+                // pointer is a 14-bit truncation of an unaddressable offset
+                let truncated = (1..4usize).any(|k| written.get(&(target + 0x4000 * k)).map_or(false, |s| s[..] == labels[i..]));
+                let tag = if truncated { " [truncated-pointer]" } else { "" };
                 match written.get(&target) {
                     Some(suffix) if suffix[..] == labels[i..] => {}
                     Some(suffix) => {
                         return Err(format!(
-                            "audit: pointer at {} targets offset {target} where {:?} was written, expected {:?}",
+                            "audit: pointer at {} targets offset {target} where {:?} was written, expected {:?}{tag}",
                             *pos,
                             N(suffix.clone()).to_string(),
                             N(labels[i..].to_vec()).to_string()
@@ -673,7 +677,7 @@ pub fn audit_pointers(bytes: &[u8], m: &WMsg) -> Result<usize, String> {
                     }
                     None => {
                         return Err(format!(
-                            "audit: pointer at {} targets offset {target} where no name was written",
+                            "audit: pointer at {} targets offset {target} where no name was written{tag}",
                             *pos
                         ))
                     }
